@@ -65,12 +65,24 @@ STALL_CPU = 420      # seconds of the driver's own processor time without a new 
 
 
 def _cpu_seconds(pid):
-    try:
-        with open(f"/proc/{pid}/stat") as f:
+    """processor time of the driver process plus its live direct children (save-child, worker)"""
+    def one(path):
+        with open(path) as f:
             fs = f.read().rsplit(")", 1)[1].split()
-        return (int(fs[11]) + int(fs[12])) / os.sysconf("SC_CLK_TCK")     # utime + stime
+        return int(fs[1]), (int(fs[11]) + int(fs[12]) + int(fs[13]) + int(fs[14])) / os.sysconf("SC_CLK_TCK")
+    try:
+        total = one(f"/proc/{pid}/stat")[1]        # utime + stime + reaped children
     except (OSError, IndexError, ValueError):
         return None
+    for d in os.listdir("/proc"):
+        if d.isdigit() and int(d) != pid:
+            try:
+                ppid, t = one(f"/proc/{d}/stat")
+                if ppid == pid:
+                    total += t
+            except (OSError, IndexError, ValueError):
+                pass
+    return total
 
 
 class _R:
